@@ -1,38 +1,29 @@
-"""F3 tuple and unions (of unequal minimum depth)."""
+"""F0 minimal recursive grammar (one terminal, one unary production): operator obligations on
+structured genotypes, whose crossover forks 2^|keys| ways."""
 from abc import ABC
 from dataclasses import dataclass
-from typing import Annotated, Union
+from typing import Annotated
 
 from geneticengine.grammar.grammar import extract_grammar
 from geneticengine.grammar.metahandlers.ints import IntRange
 
 
-class Root(ABC):
+class Expr(ABC):
     pass
 
 
 @dataclass
-class Leaf(Root):
+class Leaf(Expr):
     x: Annotated[int, IntRange(0, 1)]
 
 
 @dataclass
-class Deep(Root):
-    inner: Leaf
+class Neg(Expr):
+    e: Expr
 
 
-@dataclass
-class Pair(Root):
-    t: tuple[Leaf, Leaf]
-
-
-@dataclass
-class U(Root):
-    u: Union[Leaf, Deep]
-
-
-CLASSES = [Leaf, Deep, Pair, U]
-START = Root
+CLASSES = [Leaf, Neg]
+START = Expr
 
 
 def grammar(**kw):
